@@ -242,6 +242,8 @@ func runC11(c *Ctx) {
 		}
 	}
 
+	ruleSizeParam(c) // SIZE is decoded as an unsigned decimal that cannot wrap
+
 	R.Rule("R-enum-whitelist", "E3 edge-feasibility", "BODY, RET, NOTIFY elements and the ORCPT address type are accepted only when equal to a declared constant", 6)
 	if f := c.A.Func("(*Conn).handleMail"); f != nil {
 		for _, site := range s.Find(f, "st:MailOptions.Body") {
@@ -253,6 +255,28 @@ func runC11(c *Ctx) {
 		for _, site := range s.Find(f, "st:Conn.binarymime=true") {
 			c.obUnreach("binarymime set", site, `strings.ToUpper(next#2) != "BINARYMIME"`)
 		}
+	}
+	if f := c.A.Func("(*Conn).handleRcpt"); f != nil {
+		// NOTIFY keywords are matched case-insensitively (RFC 3461 ABNF literals): every element handed to
+		// checkNotifySet is an upper-cased piece of the parameter value
+		n := 0
+		allInstrs(f, func(in ssa.Instruction) {
+			st, ok := in.(*ssa.Store)
+			if !ok {
+				return
+			}
+			ia, ok := st.Addr.(*ssa.IndexAddr)
+			if !ok {
+				return
+			}
+			if !strings.Contains(ia.X.Type().String(), "DSNNotify") {
+				return
+			}
+			n++
+			d := describe(st.Val)
+			R.Ob(c.siteKey(in, "NOTIFY element is upper-cased"), c.P.InstrPos(in), strings.Contains(d, "strings.ToUpper("), "NOTIFY element stored as "+d+": a lower-case keyword of a well-formed parameter is refused")
+		})
+		R.Ob("(*Conn).handleRcpt/NOTIFY elements collected", c.P.Pos(f.Pos()), n >= 1, "no store of a NOTIFY element found")
 	}
 	if f := c.A.Func("checkNotifySet"); f != nil {
 		// returns nil only if every element equals one of the four constants
